@@ -16,6 +16,9 @@ mod rng;
 #[cfg(feature = "arc")]
 mod sched;
 mod simio;
+mod simlang;
+mod simmodel;
+mod unwindsim;
 mod vclock;
 
 use campaign::{CampaignConfig, CampaignResult, Worker};
@@ -159,6 +162,10 @@ fn replay_doc(doc: &Value) -> (Option<(String, String)>, u64) {
             let (v, d) = locksim::replay(doc);
             (v.map(|v| (v.class, v.detail)), d)
         }
+        "unwindsim" => {
+            let (v, d) = unwindsim::replay(doc);
+            (v.map(|v| (v.class, v.detail)), d)
+        }
         other => {
             eprintln!("unknown engine in replay file (or not built into this binary): {other}");
             std::process::exit(2);
@@ -166,10 +173,33 @@ fn replay_doc(doc: &Value) -> (Option<(String, String)>, u64) {
     }
 }
 
+/// Open known findings of an engine: each stored scenario is replayed; while it still violates
+/// with the recorded class the check prints a KNOWN-FINDING line (and exits 0 as far as this
+/// finding is concerned). Nothing is printed once it no longer violates.
+fn report_known_findings(engine: &str, property: &str, known: &known::KnownFindings) {
+    for f in known.open_for(engine) {
+        if f.property != property {
+            continue;
+        }
+        let Some(replay) = &f.replay else { continue };
+        let path = format!("/verif/{replay}");
+        let Ok(text) = std::fs::read_to_string(&path) else {
+            println!("HARNESS-ERROR known finding {} has no readable replay file {path}", f.id);
+            std::process::exit(2);
+        };
+        let doc: Value = serde_json::from_str(&text).expect("known finding replay JSON");
+        if let (Some((class, _)), _) = replay_doc(&doc)
+            && class == f.class
+        {
+            println!("KNOWN-FINDING: property={} {} [{}; replay {}]", f.property, f.what, f.id, path);
+        }
+    }
+}
+
 /// The regression set: stored minimised scenarios of repaired defects. Each is executed at the
 /// start of every check of its engine; a violation is reported like any other.
 /// Returns (replayed, violations as (class, detail, path)).
-fn run_regressions(engine: &str, dir: &str) -> (u64, Vec<(String, String, String)>) {
+fn run_regressions(engine: &str, property: &str, dir: &str) -> (u64, Vec<(String, String, String)>) {
     let mut n = 0;
     let mut out = vec![];
     let Ok(rd) = std::fs::read_dir(dir) else {
@@ -183,7 +213,7 @@ fn run_regressions(engine: &str, dir: &str) -> (u64, Vec<(String, String, String
         }
         let Ok(text) = std::fs::read_to_string(&p) else { continue };
         let Ok(doc) = serde_json::from_str::<Value>(&text) else { continue };
-        if doc["engine"].as_str() != Some(engine) {
+        if doc["engine"].as_str() != Some(engine) || doc["property"].as_str() != Some(property) {
             continue;
         }
         n += 1;
@@ -229,6 +259,45 @@ fn main() {
     let quick = args.tier != "thorough";
 
     match args.engine.as_str() {
+        "unwindsim" => {
+            let prop: &'static str = if args.rest.iter().any(|a| a == "C12") { "C12" } else { "C04" };
+            let cfg = CampaignConfig {
+                engine: "unwindsim",
+                property: prop,
+                base_seed: args.seed,
+                runs: args.runs.unwrap_or(if quick { 20_000 } else { 600_000 }),
+                max_seconds: args.seconds.unwrap_or(if quick { 60.0 } else { 900.0 }),
+                threads: args.threads,
+                keep_going: args.keep_going,
+                digest_file: args.digests.clone(),
+                replay_dir: args.replay_dir.clone(),
+            };
+            report_known_findings("unwindsim", prop, &known);
+            let (regress_n, regress_v) = run_regressions("unwindsim", prop, &args.regress_dir);
+            let mut res = campaign::run_campaign(&cfg, |_t| {
+                Box::new(unwindsim::UnwindWorker::new(known.clone(), prop)) as Box<dyn Worker>
+            });
+            res.violations.extend(regress_v);
+            let mut extra = Map::new();
+            extra.insert("regression_replays".into(), json!(regress_n));
+            let ev = campaign::evidence_part(
+                &cfg,
+                &res,
+                &args.tier,
+                "fault_enumeration",
+                "one run = one generated SimLang program; it is executed fault-free and then once per applicable fault kind at EVERY dynamic fault-point position (enumeration in the position dimension), plus seeded double/triple fault plans placed right after the first fault was handled; evaluations = executions on the real VM, each compared with the reference model; non-trivial = at least one fault fired or an error was raised; distinct = distinct sets of (error kind @ conduit stack, handler kind, exit path) signatures per program",
+                "VM instructions",
+                components(),
+                vec![
+                    "the reference model implements the documented unwinding semantics; its agreement with koto on error-free executions is re-checked on every run (disagreement there is a harness error, exit 2)".into(),
+                ],
+                extra,
+            );
+            finish(&cfg, &res, ev, &args.evidence);
+        }
+        "unwindsim-show" => {
+            unwindsim::show(args.rest[0].parse().expect("run seed"), args.rest.get(1).map(|s| s.as_str()));
+        }
         "clocksim-show" => {
             clocksim::show(args.rest[0].parse().expect("run seed"));
         }
@@ -244,7 +313,8 @@ fn main() {
                 digest_file: args.digests.clone(),
                 replay_dir: args.replay_dir.clone(),
             };
-            let (regress_n, regress_v) = run_regressions("clocksim", &args.regress_dir);
+            report_known_findings("clocksim", "C08", &known);
+            let (regress_n, regress_v) = run_regressions("clocksim", "C08", &args.regress_dir);
             let mut res = campaign::run_campaign(&cfg, |_t| {
                 Box::new(clocksim::ClockWorker::new(known.clone())) as Box<dyn Worker>
             });
@@ -289,7 +359,8 @@ fn main() {
                     std::process::exit(2);
                 }
             };
-            let (regress_n, regress_v) = run_regressions("locksim", &args.regress_dir);
+            report_known_findings("locksim", "C19", &known);
+            let (regress_n, regress_v) = run_regressions("locksim", "C19", &args.regress_dir);
             let mut res = campaign::run_campaign(&cfg, |_t| {
                 Box::new(locksim::LockWorker::new(known.clone())) as Box<dyn Worker>
             });
